@@ -104,10 +104,16 @@ impl Scenario for C11Tcp {
                     let nt = if overload { r.range(2, 3) as usize } else { r.range(1, 2) as usize };
                     let mut per_thread = vec![];
                     let mut left = if overload { buffer.unwrap_or(4).min(8) * 2 + 3 } else if flood { 90 } else { cap };
+                    // one burst in ten also describes metrics from its emitter threads (kinds 6/7 =
+                    // describe without / with a unit; one unit per burst), so that descriptions
+                    // travel through the channel next to metrics and race with whatever the
+                    // transport is doing for its clients
+                    let describing = !overload && r.chance(100);
+                    let dkind = 6 + r.below(2) as u8;
                     for _ in 0..nt {
                         let n = if flood { r.range(34, 45) as usize } else { r.range(1, left.max(1) as u64) as usize };
                         left = left.saturating_sub(n);
-                        per_thread.push((0..n).map(|_| (r.below(3) as usize, r.below(6) as u8)).collect());
+                        per_thread.push((0..n).map(|_| (r.below(3) as usize, if describing && r.chance(400) { dkind } else { r.below(6) as u8 })).collect());
                         if left == 0 {
                             break;
                         }
@@ -137,11 +143,54 @@ impl Scenario for C11Tcp {
                     }
                 }
                 10 => {
+                    // (not always followed by a pause: the next step can find the description still
+                    // in the channel, e.g. a second description or a client that leaves or arrives)
                     steps.push(Step::Describe { m: r.below(3) as usize, unit: r.chance(500) });
-                    steps.push(Step::Idle);
+                    if r.chance(600) {
+                        steps.push(Step::Idle);
+                    } else if r.chance(500) {
+                        steps.push(Step::Describe { m: r.below(3) as usize, unit: r.chance(500) });
+                    }
                 }
                 _ => steps.push(Step::Idle),
             }
+        }
+        // client churn (one plan in twelve): every client leaves, one more comes and goes, and a
+        // burst that also describes metrics is emitted while the transport may not yet have noticed
+        // that its last client is gone; whoever connects afterwards is owed all the metadata
+        if cap >= 2 && r.chance(80) {
+            for c in connected.drain(..) {
+                steps.push(Step::Close { client: c, reset: r.chance(300) });
+            }
+            steps.push(Step::Idle);
+            let a = next_client;
+            steps.push(Step::Connect { client: a, capacity: *r.pick(&[40usize, 200, 65536]) });
+            steps.push(Step::Idle);
+            steps.push(Step::Close { client: a, reset: r.chance(300) });
+            let dkind = 6 + r.below(2) as u8;
+            let nt = r.range(1, 2) as usize;
+            let mut left = cap;
+            let mut per_thread: Vec<Vec<(usize, u8)>> = vec![];
+            for t in 0..nt {
+                if left < 2 {
+                    break;
+                }
+                let n = r.range(2, left as u64) as usize;
+                left -= n;
+                let mut ops: Vec<(usize, u8)> = (0..n).map(|_| (r.below(3) as usize, if r.chance(400) { dkind } else { r.below(6) as u8 })).collect();
+                if t == 0 {
+                    ops[0].1 = r.below(6) as u8;
+                    ops[n - 1].1 = dkind;
+                }
+                per_thread.push(ops);
+            }
+            steps.push(Step::Burst { per_thread });
+            steps.push(Step::Idle);
+            let b = next_client + 1;
+            steps.push(Step::Connect { client: b, capacity: 65536 });
+            steps.push(Step::Idle);
+            steps.push(Step::ReadAll { client: b });
+            steps.push(Step::Idle);
         }
         Plan { buffer, steps }
     }
@@ -199,6 +248,7 @@ impl Scenario for C11Tcp {
                             let ops = ops.clone();
                             let rec = rec.clone();
                             let emits = e2.clone();
+                            let descs = d2.clone();
                             let bn = burst_no;
                             hs.push(dsim::spawn("emitter", move || {
                                 let tid = dsim::tid();
@@ -207,6 +257,17 @@ impl Scenario for C11Tcp {
                                     let tag = ((bn as u64) << 32) | ((tid as u64) << 16) | (k as u64 + 1);
                                     let key = key_of(*m);
                                     let inv = dsim::step();
+                                    if *kind >= 6 {
+                                        let u = if *kind == 7 { Some(Unit::Bytes) } else { None };
+                                        let kn = KeyName::from_const_str(NAMES[*m]);
+                                        match m {
+                                            0 => rec.describe_counter(kn, u, "desc".into()),
+                                            1 => rec.describe_gauge(kn, u, "desc".into()),
+                                            _ => rec.describe_histogram(kn, u, "desc".into()),
+                                        }
+                                        descs.lock().unwrap().push((si, *m, *kind == 7));
+                                        continue;
+                                    }
                                     match kind {
                                         0 => rec.register_counter(&key, &MD).increment(tag),
                                         1 => rec.register_counter(&key, &MD).absolute(tag),
@@ -447,7 +508,10 @@ fn check(plan: &Plan, emits: &[Emit], clients: &BTreeMap<usize, ClientRec>, desc
                     if !seen_metric && !meta_names.contains(name) {
                         let before: Vec<&(usize, usize, bool)> = describes.iter().filter(|d| d.1 == m && d.0 < c.connect_step).collect();
                         if let Some(last) = before.last() {
-                            let settled = plan.steps.iter().enumerate().any(|(i, s)| *s == Step::Idle && i > last.0 && i < c.connect_step) && before.iter().all(|d| desc_ok.get(&d.0).copied().unwrap_or(false));
+                            // (a describe of this metric right after the connect, with no idle point
+                            // in between, can still be taken in before the connection is accepted)
+                            let raced_later = describes.iter().any(|d| d.1 == m && d.0 > c.connect_step && !plan.steps.iter().enumerate().any(|(i, s)| *s == Step::Idle && i > c.connect_step && i < d.0));
+                            let settled = !raced_later && plan.steps.iter().enumerate().any(|(i, s)| *s == Step::Idle && i > last.0 && i < c.connect_step) && before.iter().all(|d| desc_ok.get(&d.0).copied().unwrap_or(false));
                             let want = if last.2 { Some("bytes".to_string()) } else { None };
                             if settled && *unit != want {
                                 return violation("metadata-stale", format!("client {} (connected at step {}): the metadata sent for {} carries unit {:?}, but the last description given before it connected (step {}, followed by a transport-idle point) had unit {:?}", ci, c.connect_step, name, unit, last.0, want));
@@ -571,6 +635,7 @@ fn rate_ok(plan: &Plan) -> (BTreeMap<usize, bool>, BTreeMap<usize, bool>) {
                 burst_no += 1;
                 count += per_thread.iter().map(|t| t.len()).sum::<usize>();
                 seg_bursts.push(burst_no);
+                seg_desc.push(i); // (descriptions made by the burst's threads carry its step index)
             }
             Step::Idle => flush(&mut seg_desc, &mut seg_bursts, &mut count),
             _ => {}
